@@ -142,7 +142,7 @@ let handle_lk fields impl =
         let show (s : lk) =
           Printf.sprintf "ok %s %s %s %s %s %d %d" evs m_closest
             (show_idxs (List.map to_idx s.result))
-            (show_idxs (List.sort compare (List.map to_idx s.asked)))
+            (show_idxs (List.filter (fun i -> i <> 0) (List.sort compare (List.map to_idx s.asked))))
             (show_idxs (List.sort compare (List.map to_idx s.seen)))
             (int_z s.queries) (List.length s.pending) in
         let first_fail = ref None in
